@@ -592,7 +592,10 @@ class Contract(object):
                  loops=None, returns=None, modifies=None, reads=None, setup=None, inline=True,
                  use=(), kwargs=None, bounded=None, note=None, max_paths=None, max_unroll=None,
                  hooks=None, sentinel_of=None, expect_fail=False, call=None, timeout_ms=None,
-                 ghost=None, apply_at_calls=False, cases=None, budget_s=None, assumed=False, bounds=(), native=True):
+                 ghost=None, apply_at_calls=False, cases=None, budget_s=None, assumed=False, bounds=(), native=True,
+                 idle_loops=()):
+        # loops (tags as in obligation names) that this contract expects never to be entered
+        self.idle_loops = tuple(idle_loops)
         self.target = target
         self.prop = prop
         self.params = params
@@ -861,6 +864,13 @@ def annotated_loop(ex, node, spec, it=None):
             n = it.length if isinstance(it.length, int) else SInt(it.length)
             snap = N.snapshot(it)
             elem = lambda k: mk_int(snap.at(k if isinstance(k, int) else k.t))  # noqa
+        elif it.__class__.__name__ == 'EnumVal':
+            sq = it.seq
+            n = sq.length if isinstance(sq.length, int) else SInt(sq.length)
+            snap_e = N.snapshot(sq)
+            st_e = it.start
+            elem = lambda k: STuple((mk_int(zint(st_e) + zint(k)),     # noqa
+                                     mk_int(snap_e.at(k if isinstance(k, int) else k.t))))
         elif isinstance(it, tuple):
             n = len(it)
             elem = lambda k: N.getitem(ex, it, k)  # noqa
@@ -907,9 +917,12 @@ def annotated_loop(ex, node, spec, it=None):
     ex.ghost['havocked'] = True
     body_names, _ = assigned_names(node.body + ([ast.Assign(targets=[node.target], value=None)]
                                                 if False else []))
+    target_names, pre_loop = set(), {}
     if is_for:
         tn, _ = assigned_names([ast.Assign(targets=[node.target], value=ast.Constant(0))])
         body_names |= tn
+        target_names = set(tn)
+        pre_loop = {nm: fr.locals[nm] for nm in tn if nm in fr.locals}
     for nm in body_names:
         if nm not in spec.havoc:
             fr.locals[nm] = LoopTemp(nm, tag)
@@ -926,9 +939,17 @@ def annotated_loop(ex, node, spec, it=None):
     else:
         cond = ex.truth(ex.eval(node.test))
     if not ex.branch(cond):
-        for nm in list(fr.locals):
-            if isinstance(fr.locals[nm], LoopTemp) and not is_for:
-                pass
+        if is_for and it.__class__.__name__ != 'CountVal':
+            # after the loop the target holds the last element; after zero iterations it keeps what it held
+            # before the loop (reading it then is an UnboundLocalError if it held nothing)
+            if ex.branch(mk_bool(zint(k) > 0)):
+                ex.assign(node.target, elem(mk_int(zint(k) - 1)))
+            else:
+                for nm in target_names:
+                    if nm in pre_loop:
+                        fr.locals[nm] = pre_loop[nm]
+                    else:
+                        fr.locals.pop(nm, None)
         ex.exec_block(node.orelse)
         return
     LOOPS_ENTERED.add(tag)
@@ -1392,6 +1413,8 @@ def verify(world_factory, c, registry_by_name=None):
     # invariant (a contradictory precondition or an over-constrained input shape looks exactly like this)
     if not c.expect_fail and not getattr(c, 'allow_idle_loops', False) and not res.undecided:
         for tg in sorted(LOOPS_SEEN - LOOPS_ENTERED):
+            if any(tg.endswith(x) for x in c.idle_loops):
+                continue
             res.undecided.append('checker error: annotated loop %s is reached but its body is never entered '
                                  '(vacuous loop contract)' % tg)
     res.recheck = ex.recheck_stats
